@@ -210,7 +210,10 @@ func runCmd(t *testing.T, c simrt.Chooser, w *WorldSpec, trace bool) *CmdResult 
 		wire.StallEvery, wire.StallFor = w.NicStallEvery, parseDur(w.NicStallFor)
 		if w.NicErrEvery > 0 {
 			// what sendto(2) on a packet socket returns under pressure: a temporary errno, bare or wrapped
-			errs := []error{syscall.ENOBUFS, syscall.EAGAIN, os.NewSyscallError("sendto", syscall.EAGAIN), fmt.Errorf("send: no buffer space available")}
+			// (and what a write returns when the kernel took the device away for a moment: whatever the
+			// value, a failed write is one error record and the next frame is written as usual)
+			errs := []error{syscall.ENOBUFS, syscall.EAGAIN, os.NewSyscallError("sendto", syscall.EAGAIN), fmt.Errorf("send: no buffer space available"),
+				syscall.EBADF, io.ErrClosedPipe, fmt.Errorf("write packet: use of closed file"), syscall.ENETDOWN, io.ErrShortWrite}
 			wire.WriteErrEvery, wire.WriteErr = w.NicErrEvery, errs[w.NicErrEvery%len(errs)]
 		}
 		wire.CloseWakesReader = w.CloseWakes
